@@ -85,8 +85,9 @@ def build_discipline(t, ctx):
     Discipline.default_grammar_type = Discipline.GrammarType.JSON if grammar == "JSONGrammar" else Discipline.GrammarType.SIMPLE
     try:
         if kind == "Analytic":
-            d = create_discipline("AnalyticDiscipline", expressions={"y": "2*x+z", "w": "x**2-z"})
-            inputs = [{"x": array([1.0]), "z": array([0.5])}, {"x": array([2.0]), "z": array([1.0])}, {"x": array([-1.0])}, {}]
+            d = create_discipline("AnalyticDiscipline", expressions={"y": "2*x+z-3*u+v**2+5*s*x", "w": "x**2-z"})
+            inputs = [{"x": array([1.0]), "z": array([0.5]), "u": array([2.0]), "v": array([3.0]), "s": array([0.25])},
+                      {"x": array([2.0]), "z": array([1.0]), "u": array([-1.0])}, {"x": array([-1.0]), "v": array([0.5]), "s": array([1.0])}, {}]
         elif kind == "AutoPy":
             d = create_discipline("AutoPyDiscipline", py_func=auto_py_f, py_jac=auto_py_df)
             inputs = [{"x": array([1.0]), "z": array([0.5, 2.0])}, {"x": array([2.0]), "z": array([1.0, 1.0])}, {"z": array([0.0, 3.0])}, {}]
@@ -194,6 +195,28 @@ def in_child(blob, fn):
     return pickle.loads(data)
 
 
+def in_fresh_interpreter(ctx, blob, suffix, inputs, hash_seed):
+    """Unpickle ``blob`` in a new interpreter started with another hash seed, run ``suffix`` there."""
+    import subprocess
+    import sys
+
+    from ..core import Inconclusive
+
+    req, rep = ctx.scratch / "req.pkl", ctx.scratch / "rep.pkl"
+    with open(req, "wb") as f:
+        pickle.dump({"blob": blob, "suffix": suffix, "inputs": inputs}, f)
+    env = {**os.environ, "PYTHONHASHSEED": str(hash_seed)}
+    try:
+        cp = subprocess.run([sys.executable, os.path.join(os.path.dirname(os.path.abspath(__file__)), "_c20_child.py"), str(req), str(rep)],
+                            env=env, capture_output=True, text=True, timeout=300)
+    except subprocess.TimeoutExpired as exc:
+        raise Inconclusive("the other interpreter did not answer in 300 s") from exc
+    if not rep.exists():
+        raise RuntimeError(f"the other interpreter wrote no reply (rc={cp.returncode}): {cp.stderr[-1500:]}")
+    with open(rep, "rb") as f:
+        return pickle.load(f)
+
+
 def snap(d):
     return {k: np.array(v, copy=True) if isinstance(v, np.ndarray) else v for k, v in dict(d).items()}
 
@@ -296,13 +319,14 @@ def run_discipline_like(ctx, d, inputs, label, iterative, cache):
         suffix_force_lin = True
     else:
         suffix_force_lin = False
-    transport = t.weighted([4, 2, 3], "transport")
+    transport = t.weighted([8, 4, 6, 2], "transport")
+    other_seed = 1 + t.choice(40, "other_hash_seed") if transport == 3 else None
     n_suf = t.randint(1, 3, "n_suffix")
     suffix = [(t.pick(["exec", "lin"], f"suf_kind[{i}]"), t.choice(len(inputs), f"suf_in[{i}]")) for i in range(n_suf)]
     if suffix_force_lin:
         suffix = [("lin", k) for _, k in suffix]
     sig = label
-    tname = ["pickle", "to_pickle-file", "fork"][transport]
+    tname = ["pickle", "to_pickle-file", "fork", "other-interpreter"][transport]
     ctx.event("cfg", label, canon(prefix), tname, canon(suffix))
     try:
         for op in prefix:
@@ -320,14 +344,19 @@ def run_discipline_like(ctx, d, inputs, label, iterative, cache):
     except Exception as exc:  # noqa: BLE001
         psig = f"cache={cache} dumps raised={type(exc).__name__}" if cache and cache.startswith("MemoryFullCache") else f"{sig} dumps raised={type(exc).__name__}"
         ctx.violate("C20.picklable", psig, f"pickle.dumps of {label} after prefix {prefix} raised {exc!r}")
-    if transport == 2:
+    if transport >= 2:
         def child(c):
             out = [do_op(c, op, inputs) for op in suffix]
             return out, grammar_view(c), c.execution_statistics.n_executions
 
-        status, res = in_child(blob, child)
+        if transport == 2:
+            status, res = in_child(blob, child)
+        else:
+            # a restart in another interpreter: nothing of this process survives but the bytes (hash seed included)
+            status, res = in_fresh_interpreter(ctx, blob, suffix, inputs, other_seed)
+            ctx.probe("restored_under_another_hash_seed")
         if status != "ok":
-            ctx.violate("C20.behaves_like_original", f"{sig} fork raised", f"restored {label} raised in the child: {res}; prefix={prefix} suffix={suffix}")
+            ctx.violate("C20.behaves_like_original", f"{sig} {tname} raised", f"restored {label} raised in the child: {res}; prefix={prefix} suffix={suffix}")
         got, g1, n_exec_child = res
         try:
             exp = [do_op(d, op, inputs) for op in suffix]
